@@ -5,6 +5,7 @@ go 1.15
 require (
 	github.com/certikfoundation/shentu v0.0.0
 	github.com/cosmos/cosmos-sdk v0.42.4
+	github.com/hyperledger/burrow v0.31.0
 	github.com/tendermint/tendermint v0.34.9
 	github.com/tendermint/tm-db v0.6.4
 )
